@@ -11,10 +11,11 @@ import (
 // concrete data pool for C19: the quantifier of interest is the history of
 // operations, the handles and the lookup options, not the triple contents.
 func c19Pool() []*triple.Triple {
-	mk := func(s, p, o byte) *triple.Triple {
-		return (&spec{sb: s, pb: p, ob: o}).build()
+	mk := func(s, p, o byte, pk, pa int) *triple.Triple {
+		return (&spec{sb: s, pb: p, ob: o, pk: pk, pa: pa}).build()
 	}
-	return []*triple.Triple{mk('a', 'p', 'x'), mk('a', 'p', 'y'), mk('b', 'q', 'x')}
+	// two triples share subject and predicate identifier but not the anchor
+	return []*triple.Triple{mk('a', 'p', 'x', 1, 0), mk('a', 'p', 'y', 1, 3), mk('b', 'q', 'x', 0, 0)}
 }
 
 type c19Read struct {
